@@ -12,6 +12,7 @@ import (
 	"runtime"
 	"sort"
 	"strings"
+	"sync"
 	"time"
 
 	"github.com/runreveal/pql/zzverif/c16sim"
@@ -26,6 +27,7 @@ var (
 	seedFlag = flag.Uint64("seed", 0, "base seed (VERIF_SEED)")
 	simBin   = flag.String("bin", "", "cmd/pql test binary with the simulation harness")
 	pqlBin   = flag.String("pql", "", "real pql binary (process-level leg)")
+	raceBin  = flag.String("racebin", "", "cmd/pql test binary with the simulation harness, built with -race")
 	work     = flag.String("work", "", "scratch directory")
 	verif    = flag.String("verif", "/verif", "verification directory")
 	replay   = flag.String("replay", "", "replay file to re-execute")
@@ -238,8 +240,10 @@ func main() {
 		a.violations = append(a.violations, first.violations...)
 	}
 	runWorkers(det, detCfgs, parallel, 1, 10*time.Minute)
+	a.violations = append(a.violations, det.violations...)
 	for s, d := range det.digests {
-		if a.digests[s] == d {
+		if a.digests[s] == d || len(a.violations) > 0 {
+			// (with violations in hand they are reported; a tool that misbehaves may well do so irreproducibly)
 			continue
 		}
 		// A wall-clock watchdog expiring on an overloaded machine also shows up here. Repeat the two
@@ -260,6 +264,10 @@ func main() {
 		}
 		a.violations = append(a.violations, r1.violations...)
 	}
+
+	// Race leg: a few simulation processes under the race detector (a tool that starts goroutines of its own
+	// must not make its output depend on their schedule).
+	races := runRaceLeg(base, parallel)
 
 	// Process-level leg on the real binary.
 	pl := runProcLevel(base, parallel)
@@ -298,6 +306,18 @@ func main() {
 		lines = append(lines, fmt.Sprintf("VIOLATION property=C16 replay=%s", path))
 		fmt.Printf("  class=%s regime=%s key=%s replay_verified=%v\n  %s\n  input=%q\n", final.Class, final.Violation.Verdict.Regime, key, final.ReplayVerified, final.Violation.Verdict.Detail, clipS(string(final.Violation.Case.Input)))
 		reported++
+	}
+	for _, rv := range races {
+		path := filepath.Join(*verif, "replays", fmt.Sprintf("C16-%d-%d.json", base, n))
+		n++
+		os.MkdirAll(filepath.Dir(path), 0o755)
+		if err := drv.WriteJSON(path, rv); err != nil {
+			fatal("%v", err)
+		}
+		lines = append(lines, fmt.Sprintf("VIOLATION property=C16 replay=%s", path))
+		fmt.Printf("  class=%s (race detector, in-process leg, worker seed %d)\n  %s\n", rv.Class, rv.Worker.Seed, rv.Summary)
+		reported++
+		break
 	}
 	for _, pv := range pl.violations {
 		if seenClass["proc:"+pv.Class] {
@@ -411,6 +431,20 @@ func doReplay(path string) int {
 	}
 	if err := drv.ReadJSON(path, &probe); err != nil {
 		fatal("%v", err)
+	}
+	if probe.Leg == "in-process-race" {
+		var rv raceViolation
+		if err := drv.ReadJSON(path, &rv); err != nil {
+			fatal("%v", err)
+		}
+		for attempt := 0; attempt < 3; attempt++ {
+			if got := runRaceWorker(rv.Worker); got != nil {
+				fmt.Printf("replayed worker seed %d under the race detector: %s\nVIOLATION property=C16 replay=%s\n", rv.Worker.Seed, got.Summary, path)
+				return drv.ExitViolation
+			}
+		}
+		fmt.Println("not reproduced")
+		return drv.ExitHeld
 	}
 	if probe.Leg == "process-level" {
 		var pv procViolation
@@ -557,6 +591,7 @@ func writeEvidence(a *agg, pl *procLevelResult, base uint64, bases []uint64, wal
 			"multi_file_runs":                  a.multi,
 			"over_long_line_runs":              a.long,
 			"process_level_executions":         pl.execs,
+			"runs_under_race_detector":         raceRuns,
 			"logical_steps_read_write_calls":   a.steps,
 			"simulated_time":                   "none: the code has no clock, timer or deadline (DESIGN.md §1); logical steps are Read/Write calls",
 			"bytes_fed":                        a.bytes,
@@ -592,4 +627,85 @@ func writeEvidence(a *agg, pl *procLevelResult, base uint64, bases []uint64, wal
 	if err := drv.WriteJSON(filepath.Join(*verif, "evidence", "C16.json"), ev); err != nil {
 		fatal("%v", err)
 	}
+}
+
+// raceViolation is a data race inside the tool under test, found by the race-enabled in-process leg.
+type raceViolation struct {
+	Tool     string              `json:"tool"`
+	Property string              `json:"property"`
+	Leg      string              `json:"leg"`
+	Class    string              `json:"violation_class"`
+	BaseSeed uint64              `json:"base_seed"`
+	Worker   c16sim.WorkerConfig `json:"worker"`
+	Summary  string              `json:"summary"`
+	Report   string              `json:"race_report"`
+}
+
+var raceRuns int
+
+func runRaceWorker(cfg c16sim.WorkerConfig) *raceViolation {
+	cfg.MultiOK = *multiOK
+	save := *simBin
+	*simBin = *raceBin
+	j, out := simJob(c16sim.Command{Mode: "worker", Worker: cfg}, 0, 15*time.Minute)
+	*simBin = save
+	j.Env = append(j.Env, "GORACE=halt_on_error=1 atexit_sleep_ms=0")
+	drv.RunJob(j)
+	defer os.Remove(out)
+	defer os.Remove(j.Name)
+	se := string(j.Stderr) + string(j.Stdout)
+	if strings.Contains(se, "WARNING: DATA RACE") {
+		if !strings.Contains(se, "/cmd/pql/main.go") && !strings.Contains(se, "cmd/pql.") {
+			fatal("race report without a frame of the tool (harness defect?):\n%s", tail([]byte(se)))
+		}
+		sum := "data race involving cmd/pql"
+		for _, l := range strings.Split(se, "\n") {
+			if strings.Contains(l, "/cmd/pql/main.go") {
+				sum += " at " + strings.TrimSpace(l)
+				break
+			}
+		}
+		return &raceViolation{Tool: toolVersion, Property: "C16", Leg: "in-process-race", Class: "data-race-in-tool", Worker: cfg, Summary: sum, Report: tail([]byte(se))}
+	}
+	if j.TimedOut || j.ExitCode != 0 {
+		fatal("race-enabled simulation process failed: exit %d timed out %v\n%s", j.ExitCode, j.TimedOut, tail(j.Stderr))
+	}
+	var r c16sim.WorkerResult
+	if err := drv.ReadJSON(out, &r); err == nil {
+		raceRuns += r.Runs
+	}
+	return nil
+}
+
+func runRaceLeg(base uint64, parallel int) []raceViolation {
+	if *raceBin == "" {
+		return nil
+	}
+	n := 6
+	scripts := 45
+	if *tier == "thorough" {
+		n, scripts = 32, 150
+	}
+	var mu sync.Mutex
+	var wg sync.WaitGroup
+	var found []raceViolation
+	sem := make(chan struct{}, parallel)
+	for i := 0; i < n; i++ {
+		wg.Add(1)
+		go func(i int) {
+			defer wg.Done()
+			sem <- struct{}{}
+			defer func() { <-sem }()
+			cfg := c16sim.WorkerConfig{Seed: prng.Derive(base, "c16-race-process", uint64(i)), Scripts: scripts, SweepFirst: 1, Benign: 3, Faulty: 2, MaxSweepLen: 400}
+			if v := runRaceWorker(cfg); v != nil {
+				v.BaseSeed = base
+				mu.Lock()
+				found = append(found, *v)
+				mu.Unlock()
+			}
+		}(i)
+	}
+	wg.Wait()
+	sort.Slice(found, func(i, j int) bool { return found[i].Worker.Seed < found[j].Worker.Seed })
+	return found
 }
